@@ -223,7 +223,8 @@ PROPS["C16"] = {
     "level": "proof",
     "budget": {"quick": [], "thorough": [], "search": []},
     "custom": [lambda tier, seed, ctx: blackbox.step_transcripts(tier, seed, ctx, flavours=("handshake", "noquit", "mixed"),
-                                                                encodings=[("lf", "nofinal", "crlf"), ("lf", "badutf8", "nofinal"), ("lf", "crlf", "badutf8")])],
+                                                                encodings=[("lf", "nofinal", "crlf"), ("lf", "badutf8", "nofinal"), ("lf", "crlf", "badutf8")]),
+               blackbox.step_eof_during_search],
     "rule": "black-box on the real binary: generated scripts interleaving uci / isready / ucinewgame / unknown words / blank and white-space lines / mixed case / position / go depth n, ending with or without quit (quit with trailing tokens; lines after quit must be ignored), lines with non-ASCII text (byte-order mark, accents, emoji, NUL), each script fed three times with different stdin encodings (LF, CRLF, last line unterminated, lines that are not valid UTF-8 inserted — those must be skipped silently): stdout must equal the Lean model's transcript, exit status must be 0 both on quit and at end of input (a hang is a timeout = violation)",
     "trusted_base": [KERNEL, AXIOMS, "Engine.uciLoop models stdin as a finite list of lines followed by end of input, process::exit(0)/return from main as Outcome.exited 0", "process-level facts (exit status, no hang) are observed black-box"],
     "assumptions": ["read_line returns Ok(0) at end of input (documented behaviour of std)"],
